@@ -3,7 +3,11 @@
     AnteDecVerifyEthAcc, AnteDecEthIncrementSenderSequence), baseapp.runTx (ante effects are kept,
     message effects are all-or-nothing), x/evm/keeper/msg_server.go (EthereumTx / ApplyEvmMsg:
     SetNonce(from, msg.Nonce) … SetNonce(from, msg.Nonce+1)), and the Cosmos signature path for the
-    same key.  No proofs in this file. *)
+    same key.  Since round 6 the auth ACCOUNT TYPE behind an address (EthAccount / BaseAccount / vesting
+    account) and the accounts a message TOUCHES as a non-sender (recipient of value, callee, selfdestruct
+    beneficiary) are in scope: the StateDB of a message loads every state object through the keeper's loader
+    (x/evm/keeper/statedb.go getAccountWithoutBalance, parameter [load]) and its Commit writes every dirty
+    object's nonce back as the auth sequence (Keeper.SetAccount).  No proofs in this file. *)
 From Coq Require Import List Bool Arith NArith ZArith.
 Import ListNotations.
 
@@ -20,8 +24,21 @@ Record emsg := {
   m_sig    : option nat;   (* oracle: address ECDSA recovery over the tx's own signing hash yields *)
   m_funded : bool;         (* the balance / fee-cap / gas checks of the other decorators pass *)
   m_exec   : exec_outcome;
-  m_create : bool          (* contract creation that deploys when it runs to completion *)
+  m_create : bool;         (* contract creation that deploys when it runs to completion *)
+  m_touch  : list nat      (* accounts whose state object the execution dirties when it runs to completion:
+                              recipient of the value, callee paid by an inner call, selfdestruct beneficiary *)
 }.
+
+(** the auth account type stored behind an address: EthAccount (what the EVM keeper and the ante handler
+    create), BaseAccount (add-genesis-account, accounts created by a bank send), vesting account *)
+Inductive akind := KEth | KBase | KVesting.
+
+(** the keeper's account loader: nonce of the state object, from the account's type and stored sequence *)
+Definition loader := akind -> N -> N.
+(** getAccountWithoutBalance as it stands: Nonce = acct.GetSequence() for every account type *)
+Definition load_std : loader := fun _ q => q.
+(** variant: the nonce is filled in only under the EthAccountI type assertion (like the code hash) *)
+Definition load_eth_only : loader := fun k q => match k with KEth => q | _ => 0%N end.
 
 Inductive tx :=
 | TxEth (ms : list emsg)
@@ -44,6 +61,8 @@ Definition std_chain : list dec :=
 Section WithChain.
   Variable chain : Z.                     (* this chain's EIP-155 id *)
   Variable recover : emsg -> option nat.  (* chain-agnostic signature recovery *)
+  Variable kinds : nat -> akind.          (* auth account type behind every address *)
+  Variable load : loader.                 (* Keeper.GetAccount / getAccountWithoutBalance *)
 
   (** gethcore.MakeSigner(cfg, height).Sender: London signer — typed and EIP-155 txs must carry
       this chain's id; unprotected legacy txs fall through to the Homestead rule *)
@@ -114,6 +133,12 @@ Section WithChain.
     | Some c => Some (a_seq c)
     end.
 
+  (** StateDB.Commit of one message: every dirty state object other than the sender's was loaded with
+      [load (type) (stored sequence)] (statedb.getStateObject -> Keeper.GetAccount) and is written back with
+      that nonce (Keeper.SetAccount: acct.SetSequence(account.Nonce)) *)
+  Definition commit_touched (s : state) (ts : list nat) : state :=
+    fold_right (fun x st => upd st x (load (kinds x) (s x))) s ts.
+
   (** msg server, one message: (new sequences, uid, nonce CREATE derived the address from) *)
   Definition exec_msg (s : state) (m : emsg) : option (state * nat * option (nat * N)) :=
     match m_exec m, sender_of m with
@@ -121,7 +146,10 @@ Section WithChain.
     | out, Some a =>
         let s1 := upd s a (m_nonce m) in                  (* SetNonce(from, msg.Nonce()) *)
         let used := s1 a in                                (* evm.Create: GetNonce(caller) *)
-        let s2 := upd s1 a (N.succ (m_nonce m)) in         (* SetNonce(from, msg.Nonce()+1) *)
+        (* a failed execution is reverted to the snapshot: what it touched is not dirty any more *)
+        let dirty := match out with ExecOk => m_touch m | _ => [] end in
+        (* SetNonce(from, msg.Nonce()+1) on the sender's object, then Commit of all dirty objects *)
+        let s2 := upd (commit_touched s dirty) a (N.succ (m_nonce m)) in
         Some (s2, m_uid m,
               match out, m_create m with ExecOk, true => Some (m_uid m, used) | _, _ => None end)
     end.
